@@ -728,7 +728,10 @@ def finding_locked_tag(ctx):
         dead_node_with_tag(c, 0o600)
         s1 = c.survey()
         s2 = c.survey()
-        return ("clean=err:InternalError" in s1 and "clean=err:InternalError" in s2 and "list=Dead" in s2), f"survivors: {s1}; again: {s2}"
+        m = model(["reset", "spawn o owner 0 0", "run o", "kill o", "tag init", "survey", "spawn c cleaner 2", "run c", "survey"])
+        agrees = m[5] == s1 and m[8] == s2
+        return ("clean=err:InternalError" in s1 and "clean=err:InternalError" in s2 and "list=Dead" in s2), \
+            f"survivors: {s1}; again: {s2}; model {'agrees' if agrees else 'DIFFERS: ' + m[5] + ' / ' + m[8]}"
     finally:
         c.cleanup()
 
